@@ -125,7 +125,11 @@ impl Pacer {
 
         // divisions come before multiplications to prevent overflow
         // this is the time at which the pacing window becomes empty
-        Some(now + (unscaled_delay / 5) * 4)
+        //
+        // Never return `now` itself: with a tiny deficit the computed delay rounds down to zero,
+        // and a pacing timer that is already due when it is set makes the caller spin
+        // (timeout, no tokens gained, same timeout again) until its clock happens to advance.
+        Some(now + ((unscaled_delay / 5) * 4).max(Duration::from_nanos(1)))
     }
 }
 
